@@ -246,7 +246,35 @@ Definition an_opt_str_eqb (a b : option string) : bool :=
   | _, _ => false
   end.
 
-(* the three-way test of merger.py:575-585 *)
+(* Merger._scalar_kind (added by the fix "anchors holding true / 1 / 1.0 do
+   conflict"): bool (also ruamel's ScalarBoolean), int, float, str for Scalars
+   however they are presented; the node's class otherwise *)
+Inductive an_kind := AKBool | AKInt | AKFloat | AKStr | AKOther | AKMap | AKSeq | AKSet.
+
+Definition scalar_kind (n : node) : an_kind :=
+  match n with
+  | NLeaf _ v =>
+      if is_sbool n then AKBool
+      else match v with
+           | PBool _ => AKBool
+           | PInt _ => AKInt
+           | PFloat _ _ => AKFloat
+           | PStr _ => AKStr
+           | _ => AKOther
+           end
+  | NMap _ _ => AKMap
+  | NSeq _ _ => AKSeq
+  | NSet _ _ => AKSet
+  end.
+
+Definition an_kind_eqb (a b : an_kind) : bool :=
+  match a, b with
+  | AKBool, AKBool | AKInt, AKInt | AKFloat, AKFloat | AKStr, AKStr | AKOther, AKOther
+  | AKMap, AKMap | AKSeq, AKSeq | AKSet, AKSet => true
+  | _, _ => false
+  end.
+
+(* the three-way test of merger.py:594-612 *)
 Definition anchors_match (la ra : node) : bool :=
   let lt := is_tagged_scalar la in
   let rt := is_tagged_scalar ra in
@@ -257,7 +285,7 @@ Definition anchors_match (la ra : node) : bool :=
         py_eq (tagged_text vl) (tagged_text vr) && an_opt_str_eqb (tag il) (tag ir)
     | _, _ => false
     end
-  else node_eq la ra.
+  else node_eq la ra && an_kind_eqb (scalar_kind la) (scalar_kind ra).
 
 Section WithConfig.
 Variable cfg : mconfig.
